@@ -257,7 +257,7 @@ var profReset = register(&Profile{
 	Oracles: []Oracle{{Name: "reset-exact", Before: beforeReset, After: oracleReset}},
 })
 
-var resetWeights = Weights{"dir-at-unstaged-file": 3, "file-at-unstaged-dir": 3, "dir2file": 2, "file2dir": 2, "write-new": 14, "modify": 12, "remove-file": 8, "rmdir": 6, "recreate": 2, "add": 18, "rm": 3, "commit": 20,
+var resetWeights = Weights{"write-big-twin": 1, "ignore-more": 2, "commit-repeat-message": 3, "dir-at-unstaged-file": 3, "file-at-unstaged-dir": 3, "dir2file": 2, "file2dir": 2, "write-new": 14, "modify": 12, "remove-file": 8, "rmdir": 6, "recreate": 2, "add": 18, "rm": 3, "commit": 20,
 	"reset": 22, "reset-invalid": 5, "write-temp-sibling": 5, "copydir": 3, "revert": 4, "switch": 4, "switch-c": 3, "branch": 2}
 
 // ---------------------------------------------------------------- C09
@@ -506,5 +506,5 @@ var profRestore = register(&Profile{
 	Oracles: []Oracle{{Name: "restore-exact", After: oracleRestore}},
 })
 
-var restoreWeights = Weights{"dir-at-unstaged-file": 3, "file-at-unstaged-dir": 3, "write-new": 14, "modify": 14, "remove-file": 12, "rmdir": 8, "add": 18, "rm": 4, "commit": 10,
+var restoreWeights = Weights{"ignore-more": 2, "dir-at-unstaged-file": 3, "file-at-unstaged-dir": 3, "write-new": 14, "modify": 14, "remove-file": 12, "rmdir": 8, "add": 18, "rm": 4, "commit": 10,
 	"restore": 20, "restore-staged": 18, "restore-invalid": 4, "reset": 3, "dir2file": 3, "file2dir": 3, "write-temp-sibling": 4}
